@@ -5,6 +5,8 @@
    every byte string / offset / scan window >= 4 for SeekNext.  Buffer sizes do not occur in the
    model: their irrelevance is checked by the correspondence (DESIGN section 6, C04). *)
 From GoSST Require Import Base.Bytes RecordIO.Format RecordIO.Writer RecordIO.SeqReader RecordIO.MmapReader.
+From GoSST Require Import Base.CodeFacts.
+From GoSSTGen Require Import FactsCode.
 From GoSST Require Import RecordIO.FormatFacts RecordIO.WriteReadFacts RecordIO.SeekFacts.
 Local Open Scope N_scope.
 
@@ -15,6 +17,11 @@ Theorem C04_write_then_read :
     r_open (written c ops) = Ok 8
     /\ read_all fuel c (written c ops) 8 = map (fun p => Ok (snd p)) (surv c ops) ++ [Err EOF].
 Proof. exact write_then_read. Qed.
+(* the constructors the two sides call in the source, re-read on every run *)
+Theorem C04_header_checksum_same_on_both_sides :
+  header_crc_writer_castagnoli = true /\ header_crc_reader_castagnoli = true.
+Proof. pose proof hash_facts as H; split; apply H. Qed.
+
 Print Assumptions C04_write_then_read.
 
 Theorem C04_offsets_are_addresses :
@@ -66,3 +73,4 @@ Theorem C04_seek_next_written :
     match first_at_or_after off recs with Some p => Ok p | None => Err EOF end.
 Proof. exact seek_next_written. Qed.
 Print Assumptions C04_seek_next_written.
+Print Assumptions C04_header_checksum_same_on_both_sides.
